@@ -143,19 +143,22 @@ RECURSIVE WalkFlow(_, _, _, _, _, _, _)
 Walk(cfg, tbl, n, acts) ==
   IF NodeOf(cfg, n).kind = "leaf"
   THEN IF acts = <<>>
-       THEN [visits |-> <<n>>, rest |-> <<>>, act |-> NIL, cut |-> TRUE]
-       ELSE [visits |-> <<n>>, rest |-> Tail(acts), act |-> Head(acts), cut |-> FALSE]
-  ELSE WalkFlow(cfg, tbl, n, NodeOf(cfg, n).start, acts, <<>>, NIL)
+       THEN [visits |-> <<n>>, rest |-> <<>>, act |-> NIL, cut |-> TRUE, nostart |-> FALSE]
+       ELSE [visits |-> <<n>>, rest |-> Tail(acts), act |-> Head(acts), cut |-> FALSE, nostart |-> FALSE]
+  ELSE IF NodeOf(cfg, n).start = NIL
+       THEN \* a flow without a start node fails without visiting anything: the run ends here
+            [visits |-> <<>>, rest |-> acts, act |-> NIL, cut |-> TRUE, nostart |-> TRUE]
+       ELSE WalkFlow(cfg, tbl, n, NodeOf(cfg, n).start, acts, <<>>, NIL)
 \* the loop of a flow f standing at node cur, having visited `seen`, last action `last`
 WalkFlow(cfg, tbl, f, cur, acts, seen, last) ==
   IF cur = NIL
-  THEN [visits |-> seen, rest |-> acts, act |-> Norm(last), cut |-> FALSE]
+  THEN [visits |-> seen, rest |-> acts, act |-> Norm(last), cut |-> FALSE, nostart |-> FALSE]
   ELSE LET r == Walk(cfg, tbl, cur, acts)
        IN IF r.cut
-          THEN [visits |-> seen \o r.visits, rest |-> <<>>, act |-> NIL, cut |-> TRUE]
+          THEN [visits |-> seen \o r.visits, rest |-> r.rest, act |-> NIL, cut |-> TRUE, nostart |-> r.nostart]
           ELSE IF HasEntry(tbl, f, cur, r.act)
                THEN WalkFlow(cfg, tbl, f, Target(tbl, f, cur, r.act), r.rest, seen \o r.visits, r.act)
-               ELSE [visits |-> seen \o r.visits, rest |-> r.rest, act |-> r.act, cut |-> FALSE]
+               ELSE [visits |-> seen \o r.visits, rest |-> r.rest, act |-> r.act, cut |-> FALSE, nostart |-> FALSE]
 
 \* what the run recorded: visited leaves, and the normalised action of every completed visit
 Visits(s)      == LET B == s.blocks IN TLCEval([i \in 1..Len(B) |-> B[i].node])
@@ -181,7 +184,7 @@ PathHolds(cfg, s) ==
         ELSE \* the run ended early: at the leaf where the actions ran out, or before reaching it
              /\ x.rest = <<>>
              /\ \/ v = x.visits
-                \/ x.cut /\ v = SubSeq(x.visits, 1, Len(x.visits) - 1)
+                \/ x.cut /\ ~x.nostart /\ v = SubSeq(x.visits, 1, Len(x.visits) - 1)
 
 (* ---------------------------------------------------------------------- *)
 (* C01  node lifecycle                                                     *)
